@@ -211,7 +211,7 @@ Theorem C20_event_level_cache_reachable : forall A d ka kz name_of Zf (ps : list
   arun A d ka kz name_of Zf sch (ainit A ps) = Some st ->
   (forall n, name_of (ka n) = n) -> (forall n, name_of (kz n) = n) ->
   (forall n v, In (n, v) (flat_map (zip_ops d) ps) -> Zf n = v) ->
-  exists sc, creachable fval_id deps0 (map (calls A d ka kz) ps) sc /\
+  exists sc, creachable fval_id deps0 crash0 (map (calls A d ka kz) ps) sc /\
              ents (acs A st) = ents sc /\ plain (acs A st) = plain sc.
 Proof. exact event_level_cache_reachable'. Qed.
 Print Assumptions C20_event_level_cache_reachable.
@@ -352,3 +352,25 @@ Theorem C20_history_independent : forall O d s hist probe,
   fst (serve_all O d s (hist ++ [probe])) = map (respond_pure O d (sv_modlist s)) (hist ++ [probe]).
 Proof. exact history_independent. Qed.
 Print Assumptions C20_history_independent.
+From GI Require Import Lib.GoSem Proxy.XMod Proxy.SrcLib Proxy.SrcFacts Gen.ProxySrc.
+
+(* ---- the Go source itself: Gen/ProxySrc.v is goproxytest/allhex.go (allHex) and pseudo.go
+   (isPseudoVersion) translated to Gallina by harness/go2coq on every run; the statements
+   below are about those translated functions, for every input.  Panic = a Go run-time panic. *)
+
+(* allHex: the byte loop returns exactly the model's range test on every byte; it never panics *)
+Theorem C20_source_all_hex_eq : forall rev, src_allHex rev = Ok (allhex rev).
+Proof. exact src_allHex_eq. Qed.
+Print Assumptions C20_source_all_hex_eq.
+
+(* isPseudoVersion: exactly the model's is_pseudo with the computed x/mod oracles (dash count,
+   semver.IsValid as modelled in XMod.v, the regexp term regenerated from pseudo.go) *)
+Theorem C20_source_is_pseudo_version_eq : forall short v,
+  src_isPseudoVersion v = Ok (is_pseudo (xmod_oracles short) v).
+Proof. exact src_isPseudoVersion_eq. Qed.
+Print Assumptions C20_source_is_pseudo_version_eq.
+
+(* a valid semantic version is never taken for a commit hash, stated on the translated allHex *)
+Theorem C20_source_semver_not_hex : forall v, semver_is_valid v = true -> src_allHex v = Ok false.
+Proof. exact src_semver_not_hex. Qed.
+Print Assumptions C20_source_semver_not_hex.
